@@ -19,8 +19,8 @@ EXPLANATION = (
     'removal, validate-before-mutate ordering, and path/parent propagation '
     'coverage.  It decides that the mechanisms are on every path; it does not '
     'execute histories.')
-FLOORS = {'C01.a': 20, 'C01.b': 8, 'C01.c': 4, 'C01.d': 6, 'C01.e': 2,
-          'C01.f': 14, 'C01.m2': 10}
+FLOORS = {'C01.a': 10, 'C01.b': 4, 'C01.c': 2, 'C01.d': 3, 'C01.e': 1,
+          'C01.f': 7, 'C01.m2': 5}
 
 FILES = c08.FILES
 
